@@ -132,7 +132,7 @@ Proof.
     destruct (o_status c); try (intros; exact A).
     destruct (o_rx c); cbn [negb].
     + destruct (nth_error (o_items c) (o_taken c)) as [r|].
-      * destruct (r_kind r); intros HK; apply (acct_same_senders s _ A HK); try reflexivity; intros o' c' H;
+      * destruct (r_kind r); try destruct (o_kind c) as [|[|]| |]; intros HK; apply (acct_same_senders s _ A HK); try reflexivity; intros o' c' H;
           use_updop H.
       * destruct (o_chan c); cbn [negb].
         -- destruct (o_tmo c) as [d|]; [match goal with |- context [if ?b then _ else _] => destruct b end; [destruct (is_running s)|]|];
